@@ -161,17 +161,20 @@ def check(run):
         answers += a
     execs, meta = [], []
     lengths = {}
+    lit_ok = {}
     for (it, xlen, v, doc), req, a in zip(plan, reqs, answers):
         stats["literal"] += 1
         b = const_words(a)
+        lit_ok[(it["m"], it["i"], xlen, v)] = b is not None
         key = (it["m"], it["i"])
         if a.startswith("panic"):
             run.violation("failing-input", {"kind": "compile-panic", "mnemonic": it["m"]}, f"`{req[3:]}` panics the compiler: {a[:200]}", {"stream": "plug", "input": [req], "impl": [a]})
             continue
         if b is None:
             stats["rejected"] += 1
-            lo, hi = (imm_range if it["check"][0] == "Pair" else doc)
-            if lo <= v <= hi and a.startswith("reject"):
+            lo, hi = doc
+            # (auipc-pair offsets: the accepted range is probed on the implementation, and `documented set is accepted` is C04's statement)
+            if it["check"][0] != "Pair" and lo <= v <= hi and a.startswith("reject"):
                 run.violation("failing-input", {"kind": "rejects-documented-range", "mnemonic": it["m"], "form": it["i"]},
                               f"`{req[3:]}` is rejected ({a[:120]}) although {v} lies in the documented range [{lo}, {hi}]", {"stream": "plug", "input": [req], "impl": [a]})
             continue
@@ -209,10 +212,13 @@ def check(run):
             what = f"dynasm!(ops {cases[idx]['body']}) with v = {v}"
             if st != "ok":
                 stats["rejected"] += 1
-                lo, hi = (imm_range if it["check"][0] == "Pair" else doc)
-                if lo <= v <= hi:
+                lo, hi = doc
+                # auipc-pair offsets: the literal spelling of the same operand is the reference for acceptance
+                inside = lit_ok.get((it["m"], it["i"], xlen, v), False) if it["check"][0] == "Pair" else lo <= v <= hi
+                if inside:
                     run.violation("failing-input", {"kind": "runtime-rejects-documented-range", "mnemonic": it["m"], "form": it["i"]},
-                                  f"{what} panics ({b[:120]}) although {v} lies in the documented range [{lo}, {hi}]", {"stream": "dyn", "case": cases[idx], "values": [v], "impl": [b]})
+                                  f"{what} panics ({b[:120]}) although " + (f"the literal spelling with {v} is accepted" if it["check"][0] == "Pair" else f"{v} lies in the documented range [{lo}, {hi}]"),
+                                  {"stream": "dyn", "case": cases[idx], "values": [v], "impl": [b]})
                 continue
             stats["accepted"] += 1
             lengths.setdefault(((it["m"], it["i"]), xlen), set()).add(len(b))
